@@ -5,7 +5,7 @@
 package tlpm
 
 import (
-	"encoding/binary"
+	"bytes"
 	"fmt"
 	"sort"
 	"testing"
@@ -31,7 +31,8 @@ var opNames = []string{"begin", "insert", "delete", "read", "iter", "commit", "a
 
 type Op struct {
 	K    int    `json:"k"`
-	Bits uint32 `json:"bits,omitempty"` // left-aligned in the universe width
+	Bits uint32 `json:"bits,omitempty"` // 32-bit pattern, repeated over the universe width
+	Flip int    `json:"flip,omitempty"` // 1+position of one extra flipped bit (0 = none)
 	Len  int    `json:"len,omitempty"`
 	Val  int    `json:"val,omitempty"`
 	A    int    `json:"a,omitempty"` // base version / read kind / iterator kind
@@ -39,7 +40,7 @@ type Op struct {
 }
 
 type Case struct {
-	Width int  `json:"width"` // bytes: 1, 2 or 4
+	Width int  `json:"width"` // bytes: 1, 2, 4 or 16
 	Ops   []Op `json:"ops"`
 }
 
@@ -47,16 +48,25 @@ func (o Op) String() string {
 	return fmt.Sprintf("%s(bits=%08x len=%d val=%d a=%d b=%d)", opNames[o.K], o.Bits, o.Len, o.Val, o.A, o.B)
 }
 
+// pfx: a prefix of up to 128 bits, left aligned; bits beyond len are zero.
 type pfx struct {
-	bits uint32 // masked, left-aligned to 32 bits
+	bits [16]byte
 	len  int
 }
 
-func mask(bits uint32, l int) uint32 {
-	if l == 0 {
-		return 0
+func mask(bits [16]byte, l int) [16]byte {
+	var out [16]byte
+	for i := 0; i < 16; i++ {
+		switch {
+		case l >= (i+1)*8:
+			out[i] = bits[i]
+		case l <= i*8:
+			out[i] = 0
+		default:
+			out[i] = bits[i] & (0xff << (8 - l%8))
+		}
 	}
-	return bits & (^uint32(0) << (32 - l))
+	return out
 }
 
 func covers(p pfx, q pfx) bool { // p covers q: p is a (non-strict) ancestor of q
@@ -64,8 +74,8 @@ func covers(p pfx, q pfx) bool { // p covers q: p is a (non-strict) ancestor of 
 }
 
 func less(a, b pfx) bool {
-	if a.bits != b.bits {
-		return a.bits < b.bits
+	if c := bytes.Compare(a.bits[:], b.bits[:]); c != 0 {
+		return c < 0
 	}
 	return a.len < b.len
 }
@@ -96,23 +106,34 @@ func (m model) clone() model {
 
 type universe struct{ width int }
 
-// left-aligned 32-bit value -> data bytes of the universe width
-func (u universe) data(bits uint32) []byte {
-	var b [4]byte
-	binary.BigEndian.PutUint32(b[:], bits)
-	return b[:u.width]
-}
-
-func (u universe) key(p pfx) index.Key { return lpm.EncodeLPMKey(u.data(p.bits), lpm.PrefixLen(p.len)) }
+func (u universe) key(p pfx) index.Key { return lpm.EncodeLPMKey(p.bits[:u.width], lpm.PrefixLen(p.len)) }
 
 func (u universe) decode(k []byte) pfx {
 	d, l := lpm.DecodeLPMKey(k)
-	var b [4]byte
-	copy(b[:], d)
-	return pfx{binary.BigEndian.Uint32(b[:]), int(l)}
+	var p pfx
+	copy(p.bits[:], d)
+	p.len = int(l)
+	return p
 }
 
-func (u universe) norm(bits uint32, l int) pfx {
+// expand turns the 32-bit pattern of an operation into the universe's width:
+// the pattern is repeated, so long keys share long prefixes and diverge late.
+func (u universe) expand(bits uint32, flip int) [16]byte {
+	var b [16]byte
+	for i := 0; i < 16; i += 4 {
+		b[i], b[i+1], b[i+2], b[i+3] = byte(bits>>24), byte(bits>>16), byte(bits>>8), byte(bits)
+	}
+	if flip > 0 {
+		pos := (flip - 1) % (u.width * 8)
+		b[pos/8] ^= 0x80 >> uint(pos%8)
+	}
+	for i := u.width; i < 16; i++ {
+		b[i] = 0
+	}
+	return b
+}
+
+func (u universe) norm(bits uint32, flip, l int) pfx {
 	max := u.width * 8
 	if l > max {
 		l = max
@@ -120,7 +141,7 @@ func (u universe) norm(bits uint32, l int) pfx {
 	if l < 0 {
 		l = 0
 	}
-	return pfx{mask(bits, l), l}
+	return pfx{mask(u.expand(bits, flip), l), l}
 }
 
 func collect(u universe, it *lpm.Iterator[int]) []entry {
@@ -151,7 +172,7 @@ func show(s []entry) string {
 			out += fmt.Sprintf(" ...(%d)", len(s))
 			break
 		}
-		out += fmt.Sprintf(" %08x/%d=%d", e.p.bits, e.p.len, e.v)
+		out += fmt.Sprintf(" %x/%d=%d", e.p.bits[:(e.p.len+7)/8], e.p.len, e.v)
 	}
 	return out + " ]"
 }
@@ -218,11 +239,18 @@ func wantLower(all []entry, q pfx) []entry {
 }
 
 func commonLen(a, b pfx) int {
-	x := a.bits ^ b.bits
 	n := 0
-	for n < 32 && x&(1<<31) == 0 {
-		x <<= 1
-		n++
+	for i := 0; i < 16; i++ {
+		x := a.bits[i] ^ b.bits[i]
+		if x == 0 {
+			n += 8
+			continue
+		}
+		for x&0x80 == 0 {
+			x <<= 1
+			n++
+		}
+		break
 	}
 	return min(n, a.len, b.len)
 }
@@ -263,9 +291,7 @@ func run(c Case) (res result) {
 		res.sig = sig
 		return fmt.Errorf(format, args...)
 	}
-	readCheck := func(r reader, all []entry, kind int, q pfx, what string) error {
-		full := pfx{q.bits | (^uint32(0)>>q.len)&0, u.width * 8}
-		_ = full
+	readCheck := func(r reader, all []entry, kind int, q pfx, fq pfx, what string) error {
 		switch ((kind % 7) + 7) % 7 {
 		case 0:
 			if r.Len() != len(all) {
@@ -280,34 +306,33 @@ func run(c Case) (res result) {
 				}
 			}
 			if ok != wok || (ok && v != wv) {
-				return fail("lookup-exact", "%s: LookupExact(%08x/%d)=%d,%v, model %d,%v", what, q.bits, q.len, v, ok, wv, wok)
+				return fail("lookup-exact", "%s: LookupExact(%x/%d)=%d,%v, model %d,%v", what, q.bits, q.len, v, ok, wv, wok)
 			}
 		case 2:
 			// Lookup of a full-length key: extend q with the bits given
-			fq := pfx{q.bits, u.width * 8}
 			v, ok := r.Lookup(u.key(fq))
 			wv, wok := wantLookup(all, fq)
 			if ok != wok || (ok && v != wv) {
-				return fail("lookup", "%s: Lookup(full-length %08x/%d)=%d,%v, model %d,%v", what, fq.bits, fq.len, v, ok, wv, wok)
+				return fail("lookup", "%s: Lookup(full-length %x/%d)=%d,%v, model %d,%v", what, fq.bits, fq.len, v, ok, wv, wok)
 			}
 		case 3:
 			// a stored prefix always looks itself up
 			if len(all) > 0 {
-				e := all[int(q.bits>>8)%len(all)]
+				e := all[(int(q.bits[0])+q.len)%len(all)]
 				v, ok := r.Lookup(u.key(e.p))
 				if !ok || v != e.v {
-					return fail("lookup", "%s: Lookup(stored %08x/%d)=%d,%v, model %d", what, e.p.bits, e.p.len, v, ok, e.v)
+					return fail("lookup", "%s: Lookup(stored %x/%d)=%d,%v, model %d", what, e.p.bits, e.p.len, v, ok, e.v)
 				}
 			}
 		case 4:
 			got, want := collect(u, r.Prefix(u.key(q))), wantPrefix(all, q)
 			if !eq(got, want) {
-				return fail("prefix", "%s: Prefix(%08x/%d)=%s, model %s (stored: %s)", what, q.bits, q.len, show(got), show(want), show(all))
+				return fail("prefix", "%s: Prefix(%x/%d)=%s, model %s (stored: %s)", what, q.bits, q.len, show(got), show(want), show(all))
 			}
 		case 5:
 			got, want := collect(u, r.LowerBound(u.key(q))), wantLower(all, q)
 			if !eq(got, want) {
-				return fail("lowerbound", "%s: LowerBound(%08x/%d)=%s, model %s", what, q.bits, q.len, show(got), show(want))
+				return fail("lowerbound", "%s: LowerBound(%x/%d)=%s, model %s", what, q.bits, q.len, show(got), show(want))
 			}
 		case 6:
 			if got := collect(u, r.All()); !eq(got, all) {
@@ -347,7 +372,7 @@ func run(c Case) (res result) {
 	}
 	for step, o := range c.Ops {
 		var err error
-		q := u.norm(o.Bits, o.Len)
+		q := u.norm(o.Bits, o.Flip, o.Len)
 		switch o.K {
 		case opBegin:
 			if tx == nil {
@@ -358,7 +383,7 @@ func run(c Case) (res result) {
 				begin(len(versions)-1, o.B%2 == 1)
 			}
 			if e := tx.Insert(u.key(q), o.Val); e != nil {
-				err = fail("insert", "Insert(%08x/%d) returned %v", q.bits, q.len, e)
+				err = fail("insert", "Insert(%x/%d) returned %v", q.bits, q.len, e)
 			}
 			txModel[q] = o.Val
 		case opDelete:
@@ -371,7 +396,7 @@ func run(c Case) (res result) {
 				var side [2]bool
 				for p := range txModel {
 					if p != q && covers(q, p) && p.len > q.len {
-						side[(p.bits>>(31-q.len))&1] = true
+						side[(p.bits[q.len/8]>>(7-uint(q.len%8)))&1] = true
 					}
 				}
 				if side[0] && side[1] {
@@ -381,7 +406,7 @@ func run(c Case) (res result) {
 			v, ok := tx.Delete(u.key(q))
 			delete(txModel, q)
 			if ok != wok || (ok && v != wv) {
-				err = fail("delete", "Delete(%08x/%d)=%d,%v, model %d,%v", q.bits, q.len, v, ok, wv, wok)
+				err = fail("delete", "Delete(%x/%d)=%d,%v, model %d,%v", q.bits, q.len, v, ok, wv, wok)
 			}
 		case opRead:
 			var (
@@ -410,7 +435,7 @@ func run(c Case) (res result) {
 					diverged = true
 				}
 			}
-			err = readCheck(r, all, o.A, q, what)
+			err = readCheck(r, all, o.A, q, u.norm(o.Bits, o.Flip, u.width*8), what)
 		case opIter:
 			var (
 				r   reader
@@ -439,7 +464,7 @@ func run(c Case) (res result) {
 					break
 				}
 				if !ok || u.decode(k) != want[0].p || v != want[0].v {
-					err = fail("iterate", "Next()=%x,%d,%v, model %08x/%d=%d", k, v, ok, want[0].p.bits, want[0].p.len, want[0].v)
+					err = fail("iterate", "Next()=%x,%d,%v, model %x/%d=%d", k, v, ok, want[0].p.bits, want[0].p.len, want[0].v)
 					break
 				}
 				want = want[1:]
@@ -492,9 +517,9 @@ func genBits(t *rapid.T) uint32 {
 }
 
 func genCase(t *rapid.T) Case {
-	c := Case{Width: rapid.SampledFrom([]int{1, 2, 2, 4}).Draw(t, "width")}
+	c := Case{Width: rapid.SampledFrom([]int{1, 2, 2, 4, 16}).Draw(t, "width")}
 	max := c.Width * 8
-	lens := []int{0, 1, 2, 7, 8, 9, 15, 16, 17, 23, 24, 25, 31, 32}
+	lens := []int{0, 1, 2, 7, 8, 9, 15, 16, 17, 23, 24, 25, 31, 32, 33, 63, 64, 65, 96, 120, 127, 128}
 	kinds := []int{opBegin, opInsert, opInsert, opInsert, opInsert, opDelete, opDelete, opRead, opRead, opRead, opIter, opCommit, opCommit, opAbandon}
 	genOp := rapid.Custom(func(t *rapid.T) Op {
 		o := Op{K: rapid.SampledFrom(kinds).Draw(t, "k")}
@@ -503,6 +528,9 @@ func genCase(t *rapid.T) Case {
 			o.Len = rapid.IntRange(0, max).Draw(t, "len")
 		} else {
 			o.Len = min(max, rapid.SampledFrom(lens).Draw(t, "len"))
+		}
+		if rapid.Bool().Draw(t, "flipLate") {
+			o.Flip = 1 + rapid.IntRange(0, max-1).Draw(t, "flip")
 		}
 		o.Val = rapid.IntRange(0, 9).Draw(t, "val")
 		o.A = rapid.IntRange(0, 6).Draw(t, "a")
@@ -513,7 +541,7 @@ func genCase(t *rapid.T) Case {
 	return c
 }
 
-const rule = "histories of 1..40 operations on lpm.Trie over 8/16/32-bit universes (prefix lengths 0..max, bit patterns sharing long common prefixes): inserts, deletes, reads (Len, LookupExact, Lookup of full-length keys and of stored prefixes, Prefix, LowerBound, All) and partially consumed iterators inside transactions, commits (with Clear/Reuse of the transaction object), abandons and branches off any earlier version; all results compared with a map model ordered by (bits, length) and every committed trie and retained iterator re-read after every step. Non-trivial = a deletion left an imaginary fork (deleted prefix with stored descendants on both sides) and a Lookup/Prefix/LowerBound query diverged inside a compressed path; distinct by case encoding."
+const rule = "histories of 1..40 operations on lpm.Trie over 8/16/32/128-bit universes (prefix lengths 0..max, bit patterns sharing long common prefixes): inserts, deletes, reads (Len, LookupExact, Lookup of full-length keys and of stored prefixes, Prefix, LowerBound, All) and partially consumed iterators inside transactions, commits (with Clear/Reuse of the transaction object), abandons and branches off any earlier version; all results compared with a map model ordered by (bits, length) and every committed trie and retained iterator re-read after every step. Non-trivial = a deletion left an imaginary fork (deleted prefix with stored descendants on both sides) and a Lookup/Prefix/LowerBound query diverged inside a compressed path; distinct by case encoding."
 
 func TestC13Trie(t *testing.T) {
 	const test = "TestC13Trie"
